@@ -42,7 +42,7 @@ TYPES = {"str": str, "int": int, "float": float, "bool": bool, "list": list, "tu
          "set": set, "frozenset": frozenset, "NoneType": type(None), "bytes": bytes}
 COQ_TY = {"str": "TStr", "int": "TInt", "float": "TFloat", "bool": "TBool", "list": "TList", "tuple": "TTuple",
           "dict": "TDict", "set": "TSet", "frozenset": "TFrozen", "NoneType": "TNone", "bytes": "TBytes"}
-DEFECTS = ["K16", "K16b", "K16c", "K16d", "K16e", "K16f", "K16h"]      # switches of the reference search
+DEFECTS = ["K16", "K16b", "K16c", "K16e", "K16f", "K16h", "K16i"]      # switches of the reference search
 FINDINGS = DEFECTS + ["K16g"]
 CONTAINERS = (list, tuple, dict, set, frozenset)
 
@@ -151,9 +151,11 @@ def ref_search(obj, item, kw, emulate=()):
             src = item if is_text_item else needle
             pattern = re.compile(src, re.IGNORECASE if folding else 0)
 
-    def rx_search(text, folded_text):
+    def rx_search(text, folded_text, number_text=False):
         if type(pattern.pattern) is not type(text):
-            if "K16d" in E:
+            # a str pattern is not found in bytes and vice versa (K16d, fixed by /repo 9553299 / 49764d9);
+            # as written a bytes pattern applied to the text of a number still raises (K16i)
+            if number_text and "K16i" in E:
                 raise RefRaise()
             return False
         if "K16c" in E:
@@ -169,8 +171,6 @@ def ref_search(obj, item, kw, emulate=()):
             if rx:
                 return rx_search(v, fold(v))
             if type(needle) is not type(v):
-                if "K16d" in E and not ms:
-                    raise RefRaise()
                 return False
             return fold(v) == needle if ms else needle in fold(v)
         if isinstance(v, NUMS):
@@ -184,7 +184,7 @@ def ref_search(obj, item, kw, emulate=()):
                     return True
                 # the text of the number is searched with the pattern (no folding of the
                 # text in the code: only visible for 'True'/'False')
-                return rx_search(txt, txt)
+                return rx_search(txt, txt, number_text=True)
             return False
         if isinstance(v, CONTAINERS):
             # a container matches when it equals a container item (documented nowhere in detail;
@@ -643,7 +643,7 @@ WITNESSES = {
     "K16": ({'a': 1.5, 'b': 'x1.5'}, '1.5', {"exclude_types": ["float"], "strict_checking": False}),
     "K16b": ({'a': 1}, 'a', {"exclude_paths": ["root['a']"]}),
     "K16c": (['abc'], '\\S+', {"use_regexp": True}),
-    "K16d": ([b'abc'], 'a', {}),
+    "K16i": ([1], b'1', {"use_regexp": True, "strict_checking": False}),
     "K16e": ([True], 'True', {"strict_checking": False}),
     "K16f": ({None: 'a'}, None, {}),
     "K16g": ({"a'b": 'x'}, 'x', {}),
@@ -802,7 +802,11 @@ def witnesses(ctx):
                                           "detail": "the witness of open finding %s no longer fails on the implementation" % key})
         do_case(ctx, obj, item, cfg, cases, "witness:" + key)
     # documented examples
-    docs = [([[1.0, 2], {'k': [[1, 2], (1, 2)]}, [[1, 2, 3]]], [1, 2], {}),
+    docs = [([b'abc', 'abc'], 'a', {}),                       # former K16d witnesses: must return a result now
+            (['abc', b'abc'], b'a', {}),
+            ([b'abc', 'abc', {'a': b'a'}], 'a', {"use_regexp": True}),
+            ({b'a': 1, 'a': b'a'}, b'a', {"use_regexp": True}),
+            ([[1.0, 2], {'k': [[1, 2], (1, 2)]}, [[1, 2, 3]]], [1, 2], {}),
             ([{'a': 1}, {1, 2}, frozenset({1, 2}), {'x': {'a': 1}}], {'a': 1}, {}),
             ([{1, 2}, frozenset({1, 2}), [1, 2]], {1, 2}, {"exclude_types": ["set"]}),
             (["long somewhere", "string", 0, "somewhere great!"], "somewhere", {}),
